@@ -2,6 +2,12 @@
 
 Sub-checks
     index    exhaustive: every multi-index of every (q, d) with q*d <= 12 (thorough 16) through both index maps
+    deep     sampled: q 1..62 (the whole range in which n = 2^q and the indices are signed 64-bit integers), d 1..3, indices
+             built from Python ints (0, 1, 2^q - 1, 2^q - 2, 2^(q-1) +- 1, 2^k +- 1 for k at the 8/16/24/31/32/53/54-bit
+             boundaries, alternating and random bit patterns) through both index maps and both compositions against a
+             pure-Python big-integer bit reference; batch / list / batch-of-one / single spellings, n as int or np.int64,
+             narrower integer dtypes of the argument arrays, integer type of the result wide enough for 2^q - 1;
+             1..3 blocks with different (q, d) inside one case
     convert  generated TT-tensors of shape [2^q]*d -> tt_to_qtt -> qtt_to_tt / get_many, accuracy, ranks, caps
     merge    generated QTT-tensors -> qtt_to_tt, entries at the binary expansion (all four functions together)
     reject   non-power-of-two mode sizes => ValueError (ind_tt_to_qtt, core_tt_to_qtt, tt_to_qtt, optima_qtt), fresh process
@@ -53,14 +59,17 @@ RULE = ("index: exhaustive enumeration of all 2^(q*d) multi-indices for every (q
         "Hypothesis draws q 1..4(5), d 1..6 with q*d <= 10(14), TT specs of shape [2^q]*d (all rank and value "
         "families), accuracy e (0, default, tiny/big relative to the core norms, absolute) and cap r (default, "
         "non-binding, binding, fractional); oracle = own dense chain and own bit regrouping. merge: random QTT-tensors. "
-        "reject: random non-power-of-two mode sizes 3..40(300), d 2..3 (and the d = 1 spellings). Non-trivial = q >= 2 and "
+        "deep: q 1..62 (half of the draws in 48..62 or at a word-size edge), d 1..3, 4..8 (thorough 15) multi-indices per block from the "
+        "families corner / 2^k +- small / random bits / spanning all q digits / mostly ones / mostly zeros, always with the "
+        "rows [2^q - 1]*d and [0]*d, 1..3 blocks per case; oracle = Python big-integer shift/mask; non-trivial = q >= 13 (beyond "
+        "the enumeration). reject: random non-power-of-two mode sizes 3..40(300), d 2..3 (and the d = 1 spellings). Non-trivial = q >= 2 and "
         "d >= 2 (index, convert, merge), every case of reject; distinct by SHA-1 of the case. walk: 16 (thorough 32) fixed "
         "visiting orders of all (q, d) with q*d <= 12 (16): descending, zigzag, there-and-back, arithmetic strides; every visit "
         "enumerates all 2^(q*d) multi-indices in batch, a strided sample in the single spellings, and the invalid sizes "
         "2^q - 1, 2^q + 1, 2^(q+1) - 1, 3*2^(q-1), 3*2^q. history: q 1..4(6), d 2..3, sizes from {2^(q-1), 2^q, 2^(q+1)} and the "
         "non-powers of two in (2^(q-1), 2^(q+2)); 4 functions x 4 argument spellings x 2 data variants per step; "
         "non-trivial = some invalid step follows a valid step (every case, by construction).")
-TOLERANCES = ("index maps: exact. consistency QTT vs qtt_to_tt(QTT): 2*32*(dq+sum r+2)*eps*E(|cores|) elementwise (== for "
+TOLERANCES = ("index maps: exact (compared as Python integers, for every q <= 62). consistency QTT vs qtt_to_tt(QTT): 2*32*(dq+sum r+2)*eps*E(|cores|) elementwise (== for "
               "small-integer cores). accuracy per core: 1.001*(sqrt(q)*e + q*4*S*sqrt(eps)*||G||_F) in regime T (e >= 100x that floor), "
               "1.001*(sqrt(q)*e + q*64*S*eps*||G||_F) in regime L (well-conditioned core, nothing cut), S = n*max(r1,r2) "
               "(see module docstring), tensor: prod(||G_k||+b_k) - prod||G_k|| in Frobenius norm; none when the cap may bind. "
@@ -69,6 +78,10 @@ TOLERANCES = ("index maps: exact. consistency QTT vs qtt_to_tt(QTT): 2*32*(dq+su
               "2*K*eps*E(|cores|)")
 ASSUMPTIONS = ["TT side d >= 1 is evaluated with the harness' own dense chain; teneva.get_many is only called on tensors with >= 2 cores",
                "q >= 1 (mode size 1 = 2^0 is outside the quantifier)",
+               "index maps: 1 <= q <= 62. The maps work on NumPy's default integer (signed 64-bit here): n = 2^q and every index "
+               "must be representable, and the unmodified library serves exactly q <= 62 (q = 63: ValueError 'dimensions are too "
+               "large' from unravel_index / ravel_multi_index, q >= 64: OverflowError); nothing is claimed about q >= 63. "
+               "n is passed as a Python int or np.int64, q as a Python int, index / bit arrays as integer ndarrays or lists of ints",
                "cap r >= 1 and accuracy e >= 0",
                "accuracy is claimed only in regimes T/L of the module docstring and only if int(r) >= every structural rank; "
                "other cases are counted under the label accuracy_not_claimed / cap_may_bind",
@@ -201,6 +214,195 @@ def _first_bad(got, ref, I, B):
         return None
     t = int(bad[0])
     return {"i": np.asarray(I)[t], "bits": np.asarray(B)[t], "got": got[t], "ref": ref[t]}
+
+
+# ------------------------------------------------------------------------------------------- index maps, deep quantisation
+
+Q_MAX = 62            # n = 2^q and every index 0..n-1 must be a signed 64-bit integer (NumPy's default int on this platform)
+DEEP_Q_EDGES = (13, 15, 16, 17, 23, 24, 25, 30, 31, 32, 33, 34, 47, 51, 52, 53, 54, 55, 56, 59, 60, 61, 62)
+DEEP_K_EDGES = (7, 8, 15, 16, 23, 24, 31, 32, 33, 52, 53, 54, 61)
+
+
+def py_bits(row, q):
+    """Multi-index of Python ints -> little-endian bit list (Python big-integer arithmetic only, no NumPy, no floats)."""
+    return [(int(v) >> j) & 1 for v in row for j in range(q)]
+
+
+def py_unbits(bits, q):
+    return [sum(int(b) << j for j, b in enumerate(bits[k * q:(k + 1) * q])) for k in range(len(bits) // q)]
+
+
+def deep_specials(q):
+    """Indices of [0, 2^q) at which 32-bit / 53-bit (float64 mantissa) / 64-bit intermediate arithmetic goes wrong."""
+    n = 1 << q
+    s = {0, 1, 2, n - 1, n - 2, n - 3, n // 2, n // 2 - 1, n // 2 + 1, n // 4 + 3, n // 2 + n // 4 - 1,
+         0x5555555555555555 & (n - 1), 0xAAAAAAAAAAAAAAAA & (n - 1), 0x5555555555555555 & (n - 1) | n // 2,
+         (n - 1) ^ (n // 4), (n - 1) ^ 1 ^ (n // 2)}
+    for k in DEEP_K_EDGES:
+        s |= {(1 << k) - 1, 1 << k, (1 << k) + 1, (n - 1) ^ (1 << k) if k < q else 0, n - 1 - ((1 << k) - 1) if k < q else 0}
+    return sorted(v for v in s if 0 <= v < n)
+
+
+@st.composite
+def deep_values(draw, q):
+    n = 1 << q
+    kind = draw(st.integers(0, 5))
+    if kind == 0:
+        return draw(st.sampled_from(deep_specials(q)))
+    if kind == 1:                                               # 2^k + small, 2^k - small
+        k = draw(st.integers(0, q))
+        v = (1 << k) + draw(st.integers(-3, 3))
+        return min(max(v, 0), n - 1)
+    v = draw(st.integers(0, n - 1))                             # random bit pattern
+    if kind == 2:
+        v |= 1 | (n >> 1)                                       # the set bits span all q binary digits
+    elif kind == 3:
+        v = (n - 1) ^ (v & draw(st.integers(0, n - 1)))         # mostly ones
+    elif kind == 4:
+        v &= draw(st.integers(0, n - 1))                        # mostly zeros
+    return v
+
+
+@st.composite
+def deep_blocks(draw, tier):
+    q = draw(st.one_of(st.integers(1, Q_MAX), st.integers(48, Q_MAX), st.integers(54, Q_MAX), st.sampled_from(DEEP_Q_EDGES)))
+    d = draw(st.integers(1, 3))
+    n = 1 << q
+    m = draw(st.integers(1, 5 if tier == "quick" else 12))
+    rows = [[draw(deep_values(q)) for _ in range(d)] for _ in range(m)]
+    sp = deep_specials(q)
+    a = draw(st.integers(0, len(sp) - 1))
+    rows.append([n - 1] * d)                                    # the two corners of the index box are always there
+    rows.append([0] * d)
+    rows.append([sp[(a + 5 * k) % len(sp)] for k in range(d)])
+    rows = draw(st.permutations(rows))
+    fit = [t for t, bits in (("int64", 63), ("int32", 31), ("uint32", 32), ("int16", 15), ("uint8", 8), ("uint64", 64)) if q <= bits]
+    return {"q": q, "d": d, "rows": [list(r) for r in rows],
+            "n_kind": draw(st.sampled_from(["int", "int", "np.int64"])),
+            "i_dtype": draw(st.sampled_from(["int64", "int64"] + fit)),
+            "b_dtype": draw(st.sampled_from(["int64", "int64", "int32", "int8", "uint8"])),
+            "first": draw(st.sampled_from(["tt_to_qtt", "qtt_to_tt"]))}
+
+
+@st.composite
+def deep_cases(draw, tier):
+    return {"blocks": [draw(deep_blocks(tier)) for _ in range(draw(st.integers(1, 3)))]}
+
+
+def _pylist(x):
+    """Integer ndarray -> nested lists of Python ints (exact for every integer dtype)."""
+    return np.asarray(x).tolist()
+
+
+def _holds(x, top):
+    """The integer dtype of x can represent 0..top."""
+    return np.issubdtype(x.dtype, np.integer) and int(np.iinfo(x.dtype).max) >= top
+
+
+_GUARDED = []
+
+
+def _guard_memory(extra=2 << 30):
+    """Cap the address space of this (per-shard, fresh) process at its present size + 2 GiB, once.
+
+    The index maps of the unmodified library need O(samples * d * q) integers, a few kB here.  An implementation that
+    materialises a table of all 2^q indices asks for tens of GiB per shard at q = 24..28 before it fails at q >= 29; with
+    the cap it fails at once with MemoryError (reported as a violation: an in-domain call raised) instead of starving the
+    other 15 shards and whatever else runs on the machine.  No effect on results, only on how fast such a change dies."""
+    if _GUARDED:
+        return
+    _GUARDED.append(True)
+    try:
+        import resource
+        with open("/proc/self/status") as f:
+            vm = next(int(line.split()[1]) * 1024 for line in f if line.startswith("VmSize:"))
+        soft, hard = resource.getrlimit(resource.RLIMIT_AS)
+        lim = vm + extra if hard == resource.RLIM_INFINITY else min(vm + extra, hard)
+        if soft == resource.RLIM_INFINITY or lim < soft:
+            resource.setrlimit(resource.RLIMIT_AS, (lim, hard))
+    except Exception:  # noqa: BLE001 - no /proc, no resource module: run unguarded
+        pass
+
+
+def prop_deep(case, ctx):
+    _guard_memory()
+    blocks = case["blocks"]
+    ctx.nontrivial(any(b["q"] >= 13 for b in blocks))
+    ctx.label(f"blocks={len(blocks)}")
+    total = 0
+    for t, blk in enumerate(blocks):
+        q, d, rows = blk["q"], blk["d"], blk["rows"]
+        n_py = 1 << q
+        n = n_py if blk["n_kind"] == "int" else np.int64(n_py)
+        m = len(rows)
+        total += m
+        B = [py_bits(r, q) for r in rows]                                        # reference, Python ints only
+        ctx.check(all(py_unbits(b, q) == r for b, r in zip(B, rows)), "internal: the big-integer reference is not self-consistent")
+        top = max(max(r) for r in rows)
+        span = max(v.bit_length() - ((v & -v).bit_length() - 1) if v else 0 for r in rows for v in r)
+        ctx.label("q<=12" if q <= 12 else "q13..31" if q <= 31 else "q32..53" if q <= 53 else "q54..62", f"d={d}",
+                  "n:" + blk["n_kind"], "I:" + blk["i_dtype"], "bits:" + blk["b_dtype"],
+                  "some_index_spans>53_bits" if span > 53 else "some_index_spans>32_bits" if span > 32 else "all_indices_span<=32_bits")
+        where = dict(q=q, d=d, block=t, before=[(b["q"], b["d"]) for b in blocks[:t]], n_kind=blk["n_kind"])
+        I_arr = np.array(rows, dtype=blk["i_dtype"])
+        B_arr = np.array(B, dtype=blk["b_dtype"])
+        ctx.check(_pylist(I_arr) == rows and _pylist(B_arr) == B, "internal: the argument arrays do not hold the drawn integers")
+
+        def fwd(arg):
+            return ctx.lib(teneva.ind_tt_to_qtt, arg, n)
+
+        def bwd(arg):
+            return ctx.lib(teneva.ind_qtt_to_tt, arg, q)
+
+        def ok_bits(got, ref, shape, what, **kw):
+            ctx.check(is_int_array(got, shape), f"ind_tt_to_qtt({what}): not an integer ndarray of shape {list(shape)}",
+                      type=type(got).__name__, shape=getattr(got, "shape", None), dtype=str(getattr(got, "dtype", None)), **where)
+            ctx.check(_pylist(got) == ref, f"ind_tt_to_qtt({what}) is not the little-endian bit string of the multi-index (big-integer reference)",
+                      bad=_deep_bad(_pylist(got), ref, rows if len(shape) == 2 and shape[0] == m else None), **kw, **where)
+
+        def ok_inds(got, ref, shape, what, **kw):
+            ctx.check(is_int_array(got, shape), f"ind_qtt_to_tt({what}): not an integer ndarray of shape {list(shape)}",
+                      type=type(got).__name__, shape=getattr(got, "shape", None), dtype=str(getattr(got, "dtype", None)), **where)
+            ctx.check(_holds(got, n_py - 1), f"ind_qtt_to_tt({what}): the integer type of the result cannot hold the index 2^q - 1",
+                      dtype=str(got.dtype), **where)
+            ctx.check(_pylist(got) == ref, f"ind_qtt_to_tt({what}) is not sum b_j 2^j of the bit string (big-integer reference)",
+                      bad=_deep_bad(_pylist(got), ref, None), **kw, **where)
+
+        # both maps on their own against the reference (ndarray batch), in a drawn order
+        if blk["first"] == "tt_to_qtt":
+            got = fwd(I_arr.copy())
+            back = bwd(B_arr.copy())
+        else:
+            back = bwd(B_arr.copy())
+            got = fwd(I_arr.copy())
+        ok_bits(got, B, (m, d * q), "batch")
+        ok_inds(back, rows, (m, d), "batch")
+        # the two compositions, on the library's own outputs
+        ok_inds(bwd(got), rows, (m, d), "ind_tt_to_qtt(I)")
+        ok_bits(fwd(back), B, (m, d * q), "ind_qtt_to_tt(B)")
+        # lists of Python ints
+        ok_bits(fwd([list(r) for r in rows]), B, (m, d * q), "list of lists")
+        ok_inds(bwd([list(b) for b in B]), rows, (m, d), "list of lists")
+        # batch of one and single index, ndarray / list alternating
+        for k in range(m):
+            as_list = (k + t) % 2 == 1
+            ok_bits(fwd([list(rows[k])] if as_list else I_arr[k:k + 1].copy()), [B[k]], (1, d * q), "batch of one", i=rows[k])
+            ok_inds(bwd([list(B[k])] if as_list else B_arr[k:k + 1].copy()), [rows[k]], (1, d), "batch of one", i=rows[k])
+            ok_bits(fwd(I_arr[k].copy() if as_list else list(rows[k])), B[k], (d * q,), "single index", i=rows[k])
+            ok_inds(bwd(B_arr[k].copy() if as_list else list(B[k])), rows[k], (d,), "single index", i=rows[k])
+        ctx.label("top_index>=2^53" if top >= 1 << 53 else "top_index>=2^31" if top >= 1 << 31 else "top_index<2^31")
+    ctx.inner(total - 1)
+
+
+def _deep_bad(got, ref, rows):
+    if not (isinstance(got, list) and isinstance(ref, list)) or len(got) != len(ref):
+        return None
+    if got and not isinstance(got[0], list):
+        got, ref = [got], [ref]
+    for k, (g, r) in enumerate(zip(got, ref)):
+        if g != r:
+            return {"row": k, "got": g, "ref": r, "i": rows[k] if rows else None}
+    return None
 
 
 # ------------------------------------------------------------------------------------------- accuracy model
@@ -877,5 +1079,6 @@ SUBCHECKS = [
     Sub("merge", prop_merge, strategy=merge_cases, quick=200, thorough=2500),
     Sub("reject", prop_reject, strategy=reject_cases, quick=40, thorough=300),
     Sub("walk", prop_walk, enumerate=walk_cases),
+    Sub("deep", prop_deep, strategy=deep_cases, quick=120, thorough=1500),
     Sub("history", prop_history, strategy=history_cases, quick=40, thorough=600),
 ]
